@@ -1,11 +1,11 @@
 ---- MODULE MC_chain ----
 EXTENDS MC
-\* chain  s -> p -> q  (p copies, q = fn), plus an independent copy rule r <- s2; menu entries edit q's command / add a target and a source
-mcOrd == <<"p", "q", "q2", "r", "s", "s2", "zz">>
-mcMenu == << << Rl(<<"p">>, <<"s">>, "copy", "c1"), Rl(<<"q">>, <<"p">>, "fn", "c2"), Rl(<<"r">>, <<"s2">>, "copy", "c3") >>,
-             << Rl(<<"p">>, <<"s">>, "copy", "c1"), Rl(<<"q">>, <<"p">>, "fn", "c2b"), Rl(<<"r">>, <<"s2">>, "copy", "c3") >>,
+\* chain  s -> p -> q  (p copies, q = fn), plus an independent copy rule qq <- s2 (its target's name extends the goal name q); menu entries edit q's command / add a target and a source
+mcOrd == <<"p", "q", "q2", "qq", "s", "s2", "zz">>
+mcMenu == << << Rl(<<"p">>, <<"s">>, "copy", "c1"), Rl(<<"q">>, <<"p">>, "fn", "c2"), Rl(<<"qq">>, <<"s2">>, "copy", "c3") >>,
+             << Rl(<<"p">>, <<"s">>, "copy", "c1"), Rl(<<"q">>, <<"p">>, "fn", "c2b"), Rl(<<"qq">>, <<"s2">>, "copy", "c3") >>,
              \* q's rule gains a target and a source
-             << Rl(<<"p">>, <<"s">>, "copy", "c1"), Rl(<<"q", "q2">>, <<"p", "s2">>, "fn", "c2"), Rl(<<"r">>, <<"s2">>, "copy", "c3") >> >>
+             << Rl(<<"p">>, <<"s">>, "copy", "c1"), Rl(<<"q", "q2">>, <<"p", "s2">>, "fn", "c2"), Rl(<<"qq">>, <<"s2">>, "copy", "c3") >> >>
 \* zz is an undeclared bystander file
 mcInit == << <<"s", "S0">>, <<"s2", "S0">>, <<"zz", "B0">> >>
 ====
